@@ -566,3 +566,36 @@ stage("hub_two_uses")(
   (lambda P, i, p: (lambda h: P.ls.Stream(h) + P.ls.Stream(h).skip(1))(
     _hub(P, i[0], 2)),
    lambda i, p: M.m_skip([M.m_each(i)], 1)))
+
+
+stage("attack_sustain", params=lambda W: {"a": W.pick("a", [1, 2, 3.6, 0.4]),
+                                          "d": W.pick("d", [1, 2, 2.5])})(
+  (lambda P, i, p: P.lsy.attack(p["a"], p["d"], i[0]),
+   lambda i, p: M.m_attack(i, int(p["a"] + .5), int(p["d"] + .5))))
+stage("attack_sustain_stream", params=lambda W: {"a": W.pick("a", [1, 2]),
+                                                 "d": W.pick("d", [1, 3])})(
+  (lambda P, i, p: P.lsy.attack(p["a"], p["d"], S(P, i[0])),
+   lambda i, p: M.m_attack(i, int(p["a"] + .5), int(p["d"] + .5))))
+
+
+stage("resonator_bw_stream", extra=("param",),
+      params=lambda W: {"k": W.pick("k", ["poles_exp", "z_exp",
+                                          "freq_poles_exp", "freq_z_exp"])})(
+  (lambda P, i, p: P.lf.resonator[p["k"]](.4, S(P, i[1]) * .1)(i[0]),
+   lambda i, p: M.m_lockstep(i)))
+stage("resonator_both_stream", extra=("param", "param"))(
+  (lambda P, i, p: P.lf.resonator.z_exp(S(P, i[1]), S(P, i[2]) * .1)(i[0]),
+   lambda i, p: M.m_lockstep(i)))
+stage("gammatone_klapuri_stream", extra=("param",))(
+  (lambda P, i, p: P.lau.gammatone.klapuri(S(P, i[1]), .1)(i[0]),
+   lambda i, p: M.m_lockstep(i)))
+stage("envelope_stream_cutoff", extra=("param",),
+      params=lambda W: {"k": W.pick("k", ["rms", "abs", "squared"])})(
+  (lambda P, i, p: P.la.envelope[p["k"]](i[0], cutoff=S(P, i[1])),
+   lambda i, p: M.m_lockstep(i)))
+stage("comb_tau", params=lambda W: {"d": W.span("d", 1, 3)})(
+  (lambda P, i, p: P.lf.comb.tau(p["d"], 30.)(i[0]),
+   lambda i, p: M.m_each(i)))
+stage("erb", params=lambda W: {"k": W.pick("k", ["gm90", "mg83"])})(
+  (lambda P, i, p: P.lau.erb[p["k"]](S(P, i[0]) + 50., Hz=1.),
+   lambda i, p: M.m_each(i)))
